@@ -34,12 +34,16 @@ mu = sp.Symbol('p1', real=True)
 def densities():
     return {
         'uniform': (1 / (b - a), [{a: 1, b: 4, x: 2}, {a: sp.Rational(1, 2), b: 3, x: sp.Rational(5, 2)}]),
-        'gaussian': (sp.exp(-(x - a) ** 2 / (2 * b ** 2)) / (b * sp.sqrt(2 * sp.pi)), [{a: 1, b: 2, x: 3}, {a: sp.Rational(1, 3), b: sp.Rational(7, 5), x: 2}]),
-        'exponential': (a * sp.exp(-a * x), [{a: 2, x: 3}, {a: sp.Rational(1, 3), x: sp.Rational(7, 2)}]),
-        'gamma': (b ** a / sp.gamma(a) * x ** (a - 1) * sp.exp(-b * x), [{a: 2, b: 3, x: sp.Rational(1, 2)}, {a: sp.Rational(5, 2), b: sp.Rational(1, 3), x: 4}]),
-        'beta': (x ** (a - 1) * (1 - x) ** (b - 1) / sp.beta(a, b), [{a: 2, b: 3, x: sp.Rational(1, 3)}, {a: sp.Rational(5, 2), b: sp.Rational(3, 2), x: sp.Rational(3, 4)}]),
+        'gaussian': (sp.exp(-(x - a) ** 2 / (2 * b ** 2)) / (b * sp.sqrt(2 * sp.pi)), [{a: 1, b: 2, x: 3}, {a: sp.Rational(1, 3), b: sp.Rational(7, 5), x: 2},
+                                                                                            {a: 0, b: 1, x: 9}, {a: 0, b: sp.Rational(1, 10), x: -1}, {a: 2, b: 1, x: 30}]),
+        'exponential': (a * sp.exp(-a * x), [{a: 2, x: 3}, {a: sp.Rational(1, 3), x: sp.Rational(7, 2)}, {a: 2, x: 30}, {a: 1, x: 400}]),
+        'gamma': (b ** a / sp.gamma(a) * x ** (a - 1) * sp.exp(-b * x), [{a: 2, b: 3, x: sp.Rational(1, 2)}, {a: sp.Rational(5, 2), b: sp.Rational(1, 3), x: 4},
+                                                                                  {a: 2, b: 3, x: 20}, {a: 5, b: 1, x: sp.Rational(1, 100000)}]),
+        'beta': (x ** (a - 1) * (1 - x) ** (b - 1) / sp.beta(a, b), [{a: 2, b: 3, x: sp.Rational(1, 3)}, {a: sp.Rational(5, 2), b: sp.Rational(3, 2), x: sp.Rational(3, 4)},
+                                                                           {a: 6, b: 3, x: sp.Rational(1, 10000)}, {a: 2, b: 9, x: sp.Rational(9999, 10000)}]),
         'log-uniform': (1 / (x * (sp.log(b) - sp.log(a))), [{a: 1, b: 10, x: 3}, {a: sp.Rational(1, 2), b: 7, x: 2}]),
-        'log-gaussian': (sp.exp(-(sp.log(x) - a) ** 2 / (2 * b ** 2)) / (x * b * sp.sqrt(2 * sp.pi)), [{a: 1, b: 2, x: 3}, {a: sp.Rational(1, 3), b: sp.Rational(7, 5), x: 2}]),
+        'log-gaussian': (sp.exp(-(sp.log(x) - a) ** 2 / (2 * b ** 2)) / (x * b * sp.sqrt(2 * sp.pi)), [{a: 1, b: 2, x: 3}, {a: sp.Rational(1, 3), b: sp.Rational(7, 5), x: 2},
+                                                                                                               {a: 25, b: 2, x: sp.exp(32)}, {a: 0, b: 1, x: sp.exp(-9)}]),
     }
 
 
@@ -95,7 +99,19 @@ def check_density(ctx, cls):
             if nm.split('.')[-1] == 'beta' and len(n.args) == 2:
                 return sp.beta(se.ex(n.args[0], env), se.ex(n.args[1], env))
             return None
-        se = symx.SymExec(None, None, leaf=leaf, call=call)
+
+        def leaf2(n, env, se):
+            r = leaf(n, env, se)
+            if r is not None:
+                return r
+            t = src(n).replace(' ', '')
+            consts = {'np.finfo(float).eps': 2.220446049250313e-16, 'np.finfo(float).tiny': 2.2250738585072014e-308,
+                      'np.finfo(np.float64).eps': 2.220446049250313e-16, 'sys.float_info.epsilon': 2.220446049250313e-16,
+                      'sys.float_info.min': 2.2250738585072014e-308, 'np.finfo(float).smallest_normal': 2.2250738585072014e-308}
+            if t in consts:
+                return sp.Float(consts[t], 30)
+            return None
+        se = symx.SymExec(None, None, leaf=leaf2, call=call)
         import copy
         g = copy.copy(f)
         g.body = [s for s in f.body if not isinstance(s, (ast.Import, ast.ImportFrom))]
@@ -138,7 +154,8 @@ def check_density(ctx, cls):
             if not (got.is_number and abs(got - exp) < sp.Float('1e-20')):
                 problems.append('at %s returns %s, log-density is %s' % ({str(k): str(v) for k, v in pt.items() if str(k) != 'PRIOR'}, sp.N(got, 8), sp.N(exp, 8)))
         ctx.ob('R16.1-density', fam, not problems and n_in == len(points), where,
-               '%s returns log(%s) inside the support' % (meth, density), '; '.join(problems))
+               '%s returns log(%s) inside the support, far tails included (the density is positive there, however small)' % (meth, density),
+               '; '.join(problems[:3]))
 
 
 def check_support(ctx, cls):
